@@ -312,7 +312,7 @@ func (rw *rewriter) file(fset *token.FileSet, f *ast.File, path string) (poolRef
 		if !touched[name] {
 			continue
 		}
-		keep := map[string]string{"time": "Nanosecond", "runtime": "GOOS", "math/rand": "NewSource", "math/rand/v2": "NewPCG"}[p]
+		keep := map[string]string{"time": "Nanosecond", "runtime": "GOOS", "sync": "NewCond", "math/rand": "NewSource", "math/rand/v2": "NewPCG"}[p]
 		if keep == "" {
 			continue
 		}
@@ -388,6 +388,14 @@ func (rw *rewriter) retime(f *ast.File) map[string]bool {
 		case "runtime":
 			switch sel.Sel.Name {
 			case "SetFinalizer", "Gosched", "GOMAXPROCS", "NumCPU":
+				touched[id.Name] = true
+				id.Name = "simrt"
+			}
+		case "sync":
+			switch sel.Sel.Name {
+			case "OnceFunc", "OnceValue", "OnceValues":
+				// like once.Do(f): no inner yield while f runs, or a second caller
+				// would park inside the real sync.Once
 				touched[id.Name] = true
 				id.Name = "simrt"
 			}
